@@ -120,7 +120,7 @@ def run(tier, seed):
             sidx[key] = len(scope) + 1
             scope.append({"sid": f"h{len(scope)}", "nodes": G})
         ev = {"ev": "de", "si": sidx[key], "bytes": c["bytes"], "depth": lim["depth"], "maxseq": lim["max_seq"],
-              "maxalloc": -1 if c["reader"]["kind"] == "slice" else lim.get("max_alloc", 1 << 29), "res": res}
+              "maxalloc": -1 if c["reader"]["kind"] == "slice" else lim.get("max_alloc", 1 << 29), "res": res, "maxbuf": max_buffered(c["reader"])}
         if res == "ok":
             ev["value"], ev["consumed"] = o["value"], o["consumed"]
         events.append(ev)
@@ -149,6 +149,13 @@ def run(tier, seed):
                            "(child process exit status, counting allocator, counters), compared with bounds stated here",
                            f"harness hooks: {hs['hooks']}"], time.time() - t0, rep.n)
     return rep.finish()
+
+
+def max_buffered(rd):
+    """the most bytes the harness's chunked reader ever holds at once (-1: unknown / a slice)"""
+    if rd.get("kind") == "chunks" and len(rd.get("sched", [])) == 1:
+        return rd["sched"][0]
+    return -1
 
 
 def hostile_cases(rng, tier):
@@ -214,6 +221,19 @@ def hostile_cases(rng, tier):
             for sched in ([1], [3], []):
                 out.append(({"op": "de", "schema": {"nodes": strs}, "bytes": b, "reader": {"kind": "chunks", "sched": sched},
                              "limits": {"depth": 64, "max_seq": 100, "max_alloc": ma}}, strs, "max_alloc_size around the field length"))
+    # several fields of INCREASING size, each at most the cap larger than the one before (a scratch buffer that only grows):
+    # every field above the cap must be rejected when it cannot be wholly buffered
+    many = scopes.flatten(scopes.rec("M", [("a", scopes.prim("string")), ("b", scopes.prim("bytes")), ("c", scopes.prim("string")), ("d", scopes.prim("bytes")),
+                                           ("m", scopes.mp(scopes.prim("string")))]))["nodes"]
+    for step in (8, 30):
+        for cap in (step + 2, 2 * step + 2, 10 * step):
+            sizes = [step, 2 * step, 3 * step, 4 * step]
+            v = {"t": "rec", "es": [{"t": "str", "v": [97] * sizes[0]}, {"t": "bytes", "v": [1] * sizes[1]}, {"t": "str", "v": [98] * sizes[2]},
+                                    {"t": "bytes", "v": [2] * sizes[3]}, {"t": "map", "kv": [[[107] * (sizes[0] // 2), {"t": "str", "v": [99] * sizes[1]}]]}]}
+            b = pyavro.encode(many, 1, v)
+            for sched in ([1], [5], [step + 1], []):
+                out.append(({"op": "de", "schema": {"nodes": many}, "bytes": b, "reader": {"kind": "chunks", "sched": sched},
+                             "limits": {"depth": 64, "max_seq": 100, "max_alloc": cap}}, many, "fields of increasing size around the allocation cap"))
     return out
 
 
@@ -235,7 +255,7 @@ def replay(path):
         scope_path = codec.write_scope([{"sid": "x", "nodes": G}], "c04-replay")
         lim = cmd["limits"]
         ev = {"ev": "de", "si": 1, "bytes": cmd["bytes"], "depth": lim["depth"], "maxseq": lim["max_seq"],
-              "maxalloc": -1 if cmd["reader"]["kind"] == "slice" else lim.get("max_alloc", 1 << 29), "res": o["res"]}
+              "maxalloc": -1 if cmd["reader"]["kind"] == "slice" else lim.get("max_alloc", 1 << 29), "res": o["res"], "maxbuf": max_buffered(cmd["reader"])}
         if o["res"] == "ok":
             ev["value"], ev["consumed"] = o["value"], o["consumed"]
         ok = common.validate_trace("Trace_Codec", "Trace_Codec.cfg", [ev], env={"VERIF_SCOPE": scope_path})["accepted"]
